@@ -29,6 +29,8 @@ pub struct Oracles {
     /// derivative closures of custom operations: invoked exactly once per pass for every reachable node, after
     /// all consumers, with the complete adjoint; never for unreachable nodes
     pub custom_log: bool,
+    /// ownership probes must succeed wherever the model says the handle is the sole owner
+    pub ownership: bool,
 }
 
 #[derive(Clone, Debug)]
@@ -51,6 +53,8 @@ pub struct HStats {
     pub flags_compared: usize,
     pub snapshots_compared: usize,
     pub log_entries_checked: usize,
+    pub probes: usize,
+    pub probes_after_pass: usize,
     pub logged_shared_node: bool,
 }
 
@@ -151,6 +155,27 @@ impl Interp {
         if let Step::Backward { h, .. } = s {
             let root = self.m.handle(*h).node;
             self.path_stats(root);
+        }
+        if let Step::ProbeSole { h } = s {
+            // only meaningful where the model predicts sole ownership of a graph-less array
+            if self.m.handles.get(*h).map_or(true, |x| x.is_none()) || self.m.node_of(*h).has_graph() || !self.m.sole_owner(*h) {
+                return Ok(());
+            }
+            self.stats.probes += 1;
+            if self.stats.passes > 0 {
+                self.stats.probes_after_pass += 1;
+            }
+            let dims = self.m.node_of(*h).t.dims.clone();
+            if let Err(p) = self.ex.step(s) {
+                if self.or.ownership {
+                    return Err(fail("leak", "probe".into(), format!("step {}: every result derived from handle {} (dims {:?}) has been dropped, yet it is {}", idx, h, dims, p), &self.stats));
+                }
+                return Err(HOutcome::Discard("ownership probe failed under a check that does not judge ownership".into()));
+            }
+            let _ = self.m.step(s);
+            self.sync_snaps();
+            self.snaps[*h] = self.ex.slots[*h].as_ref().map(snap);
+            return Ok(());
         }
         let handles_before = self.m.handles.len();
         let customs_before = self.ex.n_custom;
